@@ -1282,6 +1282,10 @@ class Interp:
                     return x.to_native() in container.d
                 return False
             return x in container.d
+        if isinstance(container, Opaque) and container.what == "inttext" and isinstance(x, str):
+            if any(ch.isalpha() and ch.upper() not in "ABCDEFX" for ch in x) or "$" in x:
+                return False                   # a numeric text contains no such character
+            raise Unsupported("substring test on numeric text")
         if isinstance(container, str):
             if isinstance(x, str):
                 return x in container
@@ -1361,9 +1365,12 @@ class Interp:
                 s = self.format_value(v, fr)
                 if isinstance(s, Opaque):
                     opaque = True
-                else:
-                    parts.append(s)
-        return Opaque("str") if opaque else "".join(parts)
+                parts.append(s)
+        if not opaque:
+            return "".join(parts)
+        if len(parts) == 2 and parts[0] in ("0x", "0X") and isinstance(parts[1], Opaque) and parts[1].what == "hexdigits":
+            return Opaque("inttext", (parts[1].payload, "0x%X"))      # f"0x{v:02X}": a numeric text
+        return Opaque("str")
 
     def format_value(self, node, fr):
         val = self.eval(node.value, fr)
